@@ -270,6 +270,59 @@ def rebuild_records():
     return recs
 
 
+DECODER_PARAM_VALUES = {
+    'MatchingDecoder': [('Toric2DCode', {'L_x': 3, 'L_y': 4}, {'error_type': ['X', 'Z']})],
+    'RotatedSweepMatchDecoder': [('RotatedPlanar3DCode', {'L_x': 3, 'L_y': 3, 'L_z': 2}, {'max_rounds': [1, 5, 40]}),
+                                 ('RotatedToric3DCode', {'L_x': 2, 'L_y': 2, 'L_z': 2}, {'max_rounds': [2]})],
+    'BeliefPropagationOSDDecoder': [('Planar2DCode', {'L_x': 2, 'L_y': 3},
+                                     {'max_bp_iter': [7], 'channel_update': [True], 'osd_order': [3],
+                                      'bp_method': ['product_sum']})],
+    'MemoryBeliefPropagationDecoder': [('Toric2DCode', {'L_x': 2, 'L_y': 3},
+                                        {'max_bp_iter': [7], 'alpha': [0.7], 'beta': [0.2]})],
+}
+
+
+def decoder_param_records():
+    """Every constructor parameter of every registered decoder, set to values
+    other than the default through an input specification: the decoder built -
+    and every decoder object it is made of - carries the requested value."""
+    import inspect
+    from panqec.decoders import BaseDecoder
+    recs = []
+    for dname, cls in DECODERS.items():
+        sig = inspect.signature(cls.__init__)
+        pars = [k for k in sig.parameters if k not in ('self', 'code', 'error_model', 'error_rate', 'weights')]
+        if pars and dname not in DECODER_PARAM_VALUES:
+            recs.append({'kind': 'decoder_params', 'label': dname, 'requested': [], 'echoed': [],
+                         'components': [], 'raised': f'MACHINERY: no values listed for {dname}{pars}'})
+        for cname, cpar, table in DECODER_PARAM_VALUES.get(dname, []):
+            for par, values in table.items():
+                if par not in pars:
+                    raise common.MachineryError(f'{dname} has no constructor parameter {par}')
+                for val in values:
+                    rec = {'kind': 'decoder_params', 'label': f'{dname}({par}={val!r})@{cname}',
+                           'requested': [[par, repr(val)]], 'echoed': [], 'components': [], 'raised': ''}
+                    spec = {'comments': '', 'ranges': {
+                        'label': 'p', 'code': {'name': cname, 'parameters': [dict(cpar)]},
+                        'error_model': {'name': 'PauliErrorModel', 'parameters': [{'r_x': 0.2, 'r_y': 0.3, 'r_z': 0.5}]},
+                        'decoder': {'name': dname, 'parameters': [{par: val}]}, 'error_rate': [0.05]}}
+                    try:
+                        with contextlib.redirect_stdout(io.StringIO()):
+                            batch = read_input_dict(spec, '/nonexistent/out.json', verbose=False)
+                        dec = batch._simulations[0].decoder
+                        rec['echoed'] = [[k, repr(v)] for k, v in dec.params.items()]
+                        owners = [('decoder', dec)] + [(f'decoder.{a}', o) for a, o in vars(dec).items()
+                                                       if isinstance(o, BaseDecoder)]
+                        for oname, o in owners:
+                            for attr in (par, '_' + par):
+                                if hasattr(o, attr):
+                                    rec['components'].append([oname, par, repr(getattr(o, attr))])
+                    except Exception as ex:
+                        rec['raised'] = f'{type(ex).__name__}: {ex}'[:160]
+                    recs.append(rec)
+    return recs
+
+
 def run(tier):
     t0 = time.time()
     v = common.Verdict('C13')
@@ -280,6 +333,7 @@ def run(tier):
     recs += registry_records()
     n_reg = len(recs) - n_spec
     recs += rebuild_records()
+    recs += decoder_param_records()
     for j, r in enumerate(recs):
         r['id'] = j
         r['_cost'] = len(r.get('observed', [])) ** 2 + 5
@@ -291,6 +345,10 @@ def run(tier):
                 key = f"C13:registry:{r['registry']}[{r['name']}]->{r['resolved']}"
             elif r['kind'] == 'rebuild':
                 key = f"C13:rebuild:{r['label']}"
+            elif r['kind'] == 'decoder_params':
+                if r['raised'].startswith('MACHINERY'):
+                    raise common.MachineryError(r['raised'])
+                key = f"C13:decoder-parameters:{r['label']}:" + ','.join(cl)
             else:
                 key = f"C13:spec:{r['spec']['form']}:" + ','.join(cl)
             v.reject(key, common.trim({k: x for k, x in r.items()
